@@ -25,6 +25,8 @@ REQ_CUR = [
     # duplicate / late replies after the reply was consumed (the request id must have been retired)
     ("A(0) S(0,0,1) T(0,1) Y(0,0) R(0,1,0) Y(0,0) R(0,2,0) Z", 0), ("A(0) S(0,0,1) R(0,1,1) T(0,1) Y(0,0) Y(0,0) R(0,2,0) Z", 0),
     ("A(0) S(0,0,1) T(0,1) Y(0,0) R(0,1,0) S(0,2,1) T(0,1) Y(0,5) R(0,3,0) Z", 0), ("A(0) S(0,0,1) T(0,1) Y(0,0) R(0,1,0) S(0,2,1) T(0,1) Y(0,5) Y(0,0) R(0,3,0) Z", 0), ("S(0,0,1) S(1,1,1) A(0) T(0,1) T(0,1) Y(0,1) R(1,3,0)", 1),
+    # close / teardown with several operations pending on the same context (request not yet sent because no peer, and a receive waiting)
+    ("S(0,0,1) R(0,1,1) Z", 0), ("S(0,0,1) R(0,1,1) A(0) Z", 0), ("S(0,0,1) R(0,1,1) S(1,2,1) R(1,3,1) Z", 1), ("A(0) S(0,0,1) R(0,1,1) Z", 0), ("A(0) S(0,0,1) T(0,1) R(0,1,1) Z", 0),
 ]
 REP_SLOW = set(['rep-A0A1G10QB00Z-dfa4', 'rep-A0G01QB01R01-58ae', 'rep-A0QB01R00G01Z-c94b', 'rep-A0Q02R00S10Z-3216', 'rep-A0Q00R00S10T01Z-2a28', 'rep-A0Q00R00C0S10Z-6810', 'rep-A0Q00R00S10S20Z-b368', 'rep-A0Q00R00Q00R10S20Z-8985', 'rep-A0A1Q10R00S11T11Z-3c0c', 'rep-A0R01Q01S10-d49c', 'rep-A0Q07R00S10Z-1965', 'rep-A0A1Q00Q11R00S10R20S30Z-f747', 'rep-A0R00QB00Z-85a5', 'rep-A0QB00QB01Z-7749', 'rep-A0Q00C0QB00Z-1804', 'rep-A0Q00R00Q00Z-0a07', 'rep-A0Q00R01R10-1fd4', 'rep-A0Q01R01A0-1885', 'rep-A0QB00Q00R00Z-0d6d', 'rep-A0QB00R01Q01-fd7d', 'rep-A0QB00QB00QB00Z-5c3a', 'rep-A0QB00A1Q00Z-e09f', 'rep-A0QB00S00R11-cedb', 'rep-A0QB00QB01T01Z-dd1b', 'rep-A0QB00C0Q00Z-46d8', 'rep-A0R00A1QB00Z-f26a', 'rep-A0R00QB00R11-faa2', 'rep-A0R01Q00Q01-aafd', 'rep-A0QB01R00R11-0ed5', 'rep-A0R01Q01R11-89ac', 'rep-A0S00R10QB00Z-ba32', 'property=C04'])
 ALPHA = ["A(0)", "S(0,%d,1)", "S(0,%d,0)", "R(0,%d,1)", "R(0,%d,0)", "T(0,1)", "T(0,0)", "Y(0,0)", "Y(0,2)", "Y(0,5)", "X(0)", "C(0)", "O(0,-1)", "K(70000)"]
